@@ -553,3 +553,70 @@ func (g *G) Template() []string {
 		}
 	}
 }
+
+// ---------------------------------------------------------------------------
+// building blocks for the metamorphic checks
+
+// TypeName names a generator type.
+func TypeName(t ty) string {
+	return []string{"int", "float", "bool", "string", "array", "function"}[t]
+}
+
+// Environment starts a session and returns a prelude defining id, nGlobals
+// global variables of random types and nFuncs functions.
+func (g *G) Environment(nGlobals, nFuncs int) []string {
+	g.scopes = [][]*vinfo{nil}
+	pre := []string{"id = (z) -> z"}
+	for k := 0; k < nGlobals; k++ {
+		g.fuel = 30
+		t := g.anyT()
+		name := g.fresh("g")
+		pre = append(pre, name+" = "+g.expr(t, 2))
+		g.def(&vinfo{name: name, t: t, assign: true})
+	}
+	for k := 0; k < nFuncs; k++ {
+		g.fuel = 40
+		pre = append(pre, g.fundef(2, false))
+	}
+	return pre
+}
+
+// Expr generates an expression of a random type (depth at most d) in the
+// current environment and returns its text and type name.
+func (g *G) Expr(d int) (string, string) {
+	g.fuel = 60
+	t := g.anyT()
+	return g.expr(t, d), TypeName(t)
+}
+
+// ExprOf generates an expression of the named type.
+func (g *G) ExprOf(typ string, d int) string {
+	g.fuel = 60
+	for t := tInt; t <= tArr; t++ {
+		if TypeName(t) == typ {
+			return g.expr(t, d)
+		}
+	}
+	panic("gen.ExprOf: " + typ)
+}
+
+// Stmt generates one top-level statement (possibly spanning lines; several
+// statements are wrapped in a block).
+func (g *G) Stmt(d int) string {
+	g.fuel = 60
+	s := g.stmt(d, -1)
+	if strings.Contains(s, "\n") && !isSingle(s) {
+		s = "{\n" + s + "\n}"
+	}
+	return s
+}
+
+// GlobalOf returns the name of a global variable of the named type, "" if none.
+func (g *G) GlobalOf(typ string) string {
+	for _, v := range g.scopes[0] {
+		if TypeName(v.t) == typ && v.assign {
+			return v.name
+		}
+	}
+	return ""
+}
